@@ -80,6 +80,11 @@ def rand_reaction(r, labels, max_order=4, allow_empty=True):
     return side(), side()
 
 
+def autocatalytic(sub, prod):
+    """some species is a reactant and comes out with a larger coefficient"""
+    return any(prod.get(l, 0) > c >= 1 for l, c in sub.items())
+
+
 def rand_network(r, opts=None):
     """opts: nspecies (lo,hi), nreactions (lo,hi), max_order, nenv (lo,hi), h (natural length, m),
     rate_scale, no_explosive (bool), diffusing (probability a species diffuses)"""
@@ -120,7 +125,19 @@ def rand_network(r, opts=None):
                 kf = 0.0
             if m >= 2 and n > m:
                 kr = 0.0
+        ac_f, ac_r = autocatalytic(sub, prod), autocatalytic(prod, sub)
+        if o["no_explosive"]:
+            # X-autocatalysis of order >= 2 (... + a X -> ... + b X, b > a >= 1) explodes in finite time as soon as the other
+            # reactants are fed (chemostats, sources), even when it produces no net molecule
+            if n >= 2 and ac_f:
+                kf = 0.0
+            if m >= 2 and ac_r:
+                kr = 0.0
         if o["no_growth"]:
+            if ac_f:
+                kf = 0.0
+            if ac_r:
+                kr = 0.0
             # no net molecule production by a direction of order >= 1 (exponential growth): over the long runs some
             # checks make, counts would reach the regime where tau-leap is undefined (propensity*dt >= 2^63, see C10)
             if n >= 1 and m > n:
@@ -400,3 +417,98 @@ def simple_rendering(seed_or_rng, same=None):
 def exact_molecule_rendering(r):
     """everything in (µm, s, molecule) with bare numbers: state numbers reach the engine untouched"""
     return Rendering(r, forms=("bare",), same=si.DEFAULT_SYS)
+
+
+# ---------------------------------------------------------------------------
+# dictionary-form rendering (exercises "units" declarations / inheritance at every nesting level)
+
+def _units_entry(rd, d, sys3, parent):
+    """declare the level's units system in dictionary `d`, or leave it to inheritance when it equals the parent's"""
+    if parent is not None and sys3 == parent:
+        c = rd.r.choice(["omit", "inherit", "explicit"])
+        if c == "omit":
+            return
+        if c == "inherit":
+            d[rd.r.choice(["units", "units_system", "u"])] = "inherit"
+            return
+    if sys3 == si.DEFAULT_SYS and rd.r.random() < 0.3 and parent is not None:
+        d["units"] = "default"
+        return
+    d[rd.r.choice(["units", "units_system", "units system", "u"])] = si.sys_dict(sys3)
+
+
+def _q_json(rd, si_value, dim3, enclosing):
+    """a JSON-able quantity: bare number in the enclosing system or a string with explicit units"""
+    form = rd.r.choice([f for f in rd.forms if f != "uv"] or ["bare"])
+    if form == "bare":
+        return q_bare(si_value, enclosing, dim3)
+    own = rd.sys_draw(rd.r) if rd.same is None else rd.same
+    return "%r %s" % (q_bare(si_value, own, dim3), si.unit_string(own, dim3, style=rd.r.choice([0, 1])))
+
+
+def _per_env_json(rd, v, dim3, enclosing):
+    if isinstance(v, dict):
+        return {k: _q_json(rd, x, dim3, enclosing) for k, x in v.items()}
+    return _q_json(rd, v, dim3, enclosing)
+
+
+def system_dict(desc, rd, parent_sys=None):
+    """dictionary form of a description for rdsystem_from_dict (parent_sys: units system of the enclosing script)"""
+    r = rd.r
+    sysu = rd.level("system", parent_sys)
+    d = {}
+    _units_entry(rd, d, sysu, parent_sys)
+    nsys = rd.level("network", sysu)
+    nd = {"environments": list(desc["envs"]), "species": [], "reactions": []}
+    _units_entry(rd, nd, nsys, sysu)
+    for n, s in enumerate(desc["species"]):
+        ssys = rd.level("species%d" % n, nsys)
+        sd = {r.choice(["label", "l"]): s["label"],
+              r.choice(["D", "diff_coef", "diffusion_coefficient"]): _per_env_json(rd, s["D"], D_DIM, ssys),
+              r.choice(["density", "concentration", "conc", "C"]): _per_env_json(rd, s["density"], DENS_DIM, ssys),
+              r.choice(["chstt", "chemostat"]): (dict(s["chstt"]) if isinstance(s["chstt"], dict) else bool(s["chstt"]))}
+        _units_entry(rd, sd, ssys, nsys)
+        nd["species"].append(sd)
+    for n, x in enumerate(desc["reactions"]):
+        rsys = rd.level("reaction%d" % n, nsys)
+        no, mo = sum(x["sub"].values()), sum(x["prod"].values())
+        xd = {r.choice(["stoichiometry", "eq", "equation"]): eq_string(x["sub"], x["prod"], r),
+              r.choice(["k+", "kf"]): _per_env_json(rd, x["kf"], K_DIM(no), rsys),
+              r.choice(["k-", "kr"]): _per_env_json(rd, x["kr"], K_DIM(mo), rsys)}
+        if x.get("label"):
+            xd["label"] = x["label"]
+        _units_entry(rd, xd, rsys, nsys)
+        nd["reactions"].append(xd)
+    d[r.choice(["network", "rdnetwork"])] = nd
+    sp = desc["space"]
+    ssys = rd.level("space", sysu)
+    if sp["type"] == "grid":
+        gd = {"type": "grid", r.choice(["w", "width"]): sp["w"], r.choice(["h", "height"]): sp["h"], r.choice(["d", "depth"]): sp["d"],
+              r.choice(["cell_env", "cell_environments", "env"]): list(sp["cell_env"]),
+              r.choice(["cell_volume", "cell_vol"]): _q_json(rd, sp["cell_vol"], VOL_DIM, ssys),
+              "boundary_conditions": dict(sp["bc"])}
+        _units_entry(rd, gd, ssys, sysu)
+        d[r.choice(["space", "rdspace"])] = gd
+    else:
+        gd = {"type": "graph", "nodes": [], "edges": []}
+        _units_entry(rd, gd, ssys, sysu)
+        for n, nd_ in enumerate(sp["nodes"]):
+            nsy = rd.level("node%d" % n, ssys)
+            x = {r.choice(["volume", "vol"]): _q_json(rd, nd_["vol"], VOL_DIM, nsy), r.choice(["environment", "env"]): nd_["env"]}
+            _units_entry(rd, x, nsy, ssys)
+            gd["nodes"].append(x)
+        for n, e in enumerate(sp["edges"]):
+            esy = rd.level("edge%d" % n, ssys)
+            x = {"nodes": [e["i"], e["j"]], "surface": _q_json(rd, e["sfc"], SFC_DIM, esy), "distance": _q_json(rd, e["dst"], LEN_DIM, esy)}
+            _units_entry(rd, x, esy, ssys)
+            gd["edges"].append(x)
+        d[r.choice(["space", "rdspace"])] = gd
+    if desc["state"] is not None:
+        own = rd.sys_draw(r) if rd.same is None else rd.same
+        if r.random() < 0.5:
+            d["state"] = {"value": [q_bare(x, own, Q_DIM) for x in desc["state"]], "units": own[2]}
+        else:
+            d["state"] = [q_bare(x, sysu, Q_DIM) for x in desc["state"]]
+    if desc["chemostats"] is not None:
+        d["chemostats"] = list(desc["chemostats"])
+    return d
